@@ -76,6 +76,10 @@ GEN[("C06", "thorough")] = GEN[("C12", "thorough")]
 # C01 at the loop (see ALIAS): many events per notification (a loop that stops reading early leaves the releases unread), tablet events and key events in one wake-up
 GEN[("C01", "quick")] = [("basic", ["P:A", "P:S"], 1, 1, 0, 0, 20), ("basic", ["P:A", "R:A"], 2, 2, 0, 0), ("passthru", ["R:1"], 1, 1, 0, 0, NINE)]
 GEN[("C01", "thorough")] = GEN[("C01", "quick")] + [("basic", ["P:A", "R:A"], 1, 0, 1, 1, 70), ("norep", ["P:LEFTSHIFT", "P:A"], 2, 0, 0, 0, 33), ("basic", ["P:A", "R:A"], 3, 2, 0, 0)]
+# C14 at the loop (see ALIAS): boundary repeat timings with timer expiries
+# (negative timings are left out: with a negative delay the loop asks for a time-out of 2^64 - 5 ms, i.e. never repeats; not a panic, and outside what C11 quantifies over)
+GEN[("C14", "quick")] = [("zerorep", ["P:B", "P:A", "R:B"], 2, 0, 2, 0)]
+GEN[("C14", "thorough")] = [("zerorep", ["P:B", "P:A", "R:B"], 3, 1, 3, 0)]
 # C18 at the real driver (see ALIAS): large batches - nine keys released at once by the tablet switch, bursts of pass-through events
 GEN[("C18", "quick")] = [("passthru", ["R:1"], 1, 1, 0, 0, NINE), ("basic", ["P:A", "R:A"], 1, 1, 0, 0, 20)]
 GEN[("C18", "thorough")] = [("passthru", ["R:1", "P:A"], 2, 2, 0, 0, NINE), ("basic", ["P:A", "R:A"], 2, 1, 0, 0, 40), ("passthru", ["R:1"], 1, 1, 0, 0, SEVENTEEN)]
@@ -88,10 +92,11 @@ SIM = {
     "C06": [],
     "C18": [],
     "C01": [],
+    "C14": [],
 }
 INVARIANTS = ["NoLostWakeup", "SendsAreMapperOutputs", "QuietInTabletMode", "HeldMatches", "ReleasedInTablet", "ChordsAreTransient", "StopsOnFailure", "EmitSchedule"]
 # registers of LoopTrace that must be non-zero for a run of the property to be non-vacuous
-NEED = {"C10": [4, 8], "C11": [3, 6], "C12": [5, 9, 10], "C20": [7], "C06": [5, 10], "C18": [4, 5], "C01": [4, 8]}
+NEED = {"C10": [4, 8], "C11": [3, 6], "C12": [5, 9, 10], "C20": [7], "C06": [5, 10], "C18": [4, 5], "C01": [4, 8], "C14": [4]}
 REGS = ["traces", "drifts", "chords_judged", "step_sends_judged", "releaseall_sends_judged", "timed_polls_judged", "failing_calls_judged",
         "polls_with_unread_events_queued", "key_events_read_in_tablet_mode", "tablet_on_with_keys_held"]
 
@@ -223,6 +228,7 @@ SCENARIOS = {
     "C11": [("tapchord", "P:A R:A P:B to to R:B P:A R:A P:B to"), ("basic", "P:Z P:S to R:Z to to"), ("basic", "P:Z P:S to to R:S to R:Z"), ("basic", "P:A P:S to P:B to to"),
             ("zerorep", "P:B to to to R:B"), ("zerorep", "P:A to to R:A P:B to"), ("zerorep", "P:S to R:S P:B to to")],
     "C12": [("tapchord", "P:A R:A On Off P:B to to R:B")],
+    "C14": [("zerorep", "P:B to to to R:B"), ("zerorep", "P:A to to R:A P:B to")],
 }
 
 
@@ -416,6 +422,9 @@ def startup_runs(res, exe, wd, tier):
 # changes nothing is held ... answers as a newly created mapper ... no memory of ... repeat triggers survives")
 ALIAS = {# C01 at the loop ("whenever no physical key is held, no key is held on the virtual keyboard"), judged each time the loop goes back to waiting
          "C01": {"C01-keys-held-while-waiting-although-every-key-was-released"},
+         # C14 at the loop ("every layout that loading accepts can be ... driven with any sequence of key events without panicking"): the loop
+         # that drives the mapper must not panic either, whatever the accepted layout's repeat timings are (zero, negative)
+         "C14": {"C10-loop-panicked"},
          "C06": {"C12-repeat-survives-tablet-switch", "C12-not-fresh-after-tablet-mode", "C12-not-released-at-tablet-on", "C12-chord-not-as-fresh-after-tablet-mode"},
          # C18 at the real driver ("for every batch of output events the bytes written are one record per event ... followed by exactly one
          # SYN_REPORT"): under the real driver every write is decoded and logged as one send, so a batch that is split, merged, truncated or
